@@ -8,7 +8,7 @@ from beziers.point import Point
 
 ID = "C05"
 TOPICS = ["Inter", "Lookup", "Roots", "Affine", "Eval"]
-LEAN_TARGETS = ["BezierVerif.Props.Roots", "BezierVerif.Props.C05"]
+LEAN_TARGETS = ["BezierVerif.Props.Roots", "BezierVerif.Props.C05", "BezierVerif.Props.C05M"]
 TV_DEFS = ["line_line", "line_tOfPoint", "line_tOfPoint_sworn", "quadraticRoots", "quadraticRoots_unlimited", "quad_rootcoeffs_y", "cubic_rootcoeffs_y",
            "cubic_findRoots_dispatch", "cubic_cardano_roots", "alignmentTransformation", "quad_transformed", "cubic_transformed"]
 RULE = ("(line | quadratic | cubic, line) pairs; curves from the families int, grid, dyadic, float, arch, elevated (degree-elevated lower order), collinear "
